@@ -573,6 +573,16 @@ class _File:
         if isinstance(name, SymStr):
             raise Unsupported("symbolic file name")
         self.name, self.mode = name, mode
+        enc = k.get("encoding", a[1] if len(a) > 1 else None)
+        if enc is not None and not isinstance(enc, str):
+            raise Unsupported("symbolic file encoding")
+        enc = (enc or "utf-8").lower().replace("_", "-")
+        if enc not in ("utf-8", "utf8", "utf-8-sig"):
+            raise Unsupported(f"file encoding {enc!r} is not modelled")
+        # utf-8-sig: a reader drops one U+FEFF at the very beginning of the file, a writer would add one
+        self.bom = enc == "utf-8-sig"
+        if self.bom and ("w" in mode or "a" in mode):
+            raise Unsupported("writing with encoding utf-8-sig is not modelled")
         if "w" in mode:
             FS[name] = []          # truncation happens at open time, as in the OS
             WRITES.append(name)
@@ -591,6 +601,8 @@ class _File:
         FS[self.name].append(("line", list(cells), sep, end))
 
     def read(self):
+        if getattr(self, "bom", False):
+            raise Unsupported("read() with encoding utf-8-sig is not modelled")
         recs = FS[self.name]
         if len(recs) == 1 and recs[0][0] in ("text", "json"):
             return recs[0][1] if recs[0][0] == "text" else JsonText(recs[0][1])
@@ -646,7 +658,7 @@ class Line:
 
 
 def stub_open(name, mode="r", *a, **k):
-    return _File(name, mode)
+    return _File(name, mode, *a, **k)
 
 
 class StubPath:
@@ -660,7 +672,7 @@ class StubPath:
     def resolve(self): return self
     def absolute(self): return self
     def as_posix(self): return self.p
-    def open(self, mode="r", *a, **k): return _File(self.p, mode)
+    def open(self, mode="r", *a, **k): return _File(self.p, mode, *a, **k)
     def exists(self): return self.p in FS
     def is_file(self): return self.p in FS
     def __truediv__(self, o): return StubPath(self.p + "/" + (o.p if isinstance(o, StubPath) else o))
@@ -834,6 +846,14 @@ class _Reader:
                     out.append(c)
                 cells = out
             self.rows.append(cells)
+        if getattr(f, "bom", False) and self.rows and self.rows[0]:
+            c = self.rows[0][0]     # decoded with utf-8-sig: one leading U+FEFF of the file is dropped
+            if isinstance(c, SymStr):
+                if E().branch(z3.PrefixOf(z3.StringVal("\ufeff"), c.e)):
+                    c = SymStr(z3.SubString(c.e, 1, z3.Length(c.e) - 1))
+            elif c.startswith("\ufeff"):
+                c = c[1:]
+            self.rows[0] = [c] + list(self.rows[0][1:])
         self.i = 0
         self.line_num = 0
 
